@@ -385,6 +385,28 @@ def _check_status_loop(run, repo, world):
         raise AnalysisError("BitmapResponse.status vanished")
     from ..normal import normalise
     fn = normalise(r[2], world, r[0].mod, r[0], aliases="params")
+    # a local bound once to the received frame (`received = self._value`) is
+    # that attribute
+    from ..inline import acopy as _acp
+    al = {}
+    for n_ in ast.walk(fn):
+        if isinstance(n_, ast.Assign) and len(n_.targets) == 1 and \
+                isinstance(n_.targets[0], ast.Name):
+            al.setdefault(n_.targets[0].id, []).append(n_)
+    al = {k_: v_[0] for k_, v_ in al.items() if len(v_) == 1 and unparse(
+        v_[0].value) == "self._value"}
+    if al:
+        fn = _acp(fn)
+
+        class _A(ast.NodeTransformer):
+            def visit_Name(self, n_):
+                if isinstance(n_.ctx, ast.Load) and n_.id in al:
+                    return ast.copy_location(ast.Attribute(
+                        ast.Name("self", ast.Load()), "_value", ast.Load()),
+                        n_)
+                return n_
+        fn = _A().visit(fn)
+        ast.fix_missing_locations(fn)
     cfg = CFG(fn, may_raise=explicit_raise_only, name="BitmapResponse.status")
     loops = [n for n in cfg.reachable if n.kind == "for"]
     K = CMD + "BitmapResponse.status"
